@@ -58,7 +58,8 @@ fn run(out: &mut Out, sched: &Value, w: &World) {
     let pc = vcommon::n(sched, "pc") as usize;
     let rc = vcommon::n(sched, "rc") as usize;
     let rm = vcommon::b(sched, "rm");
-    out.reset_with(json!({"pc": pc, "rc": rc, "rm": rm}), sched);
+    let cust = sched["ops"].as_array().map(|o| o.iter().any(|x| x["op"] == "custom" || x["op"] == "take")).unwrap_or(false);
+    out.reset_with(json!({"pc": pc, "rc": rc, "rm": rm, "cust": cust}), sched);
     let cfg = Config::default()
         .set_peer_capacity(NonZeroUsize::new(pc).unwrap())
         .set_record_capacity(NonZeroUsize::new(rc).unwrap())
@@ -105,6 +106,15 @@ fn run(out: &mut Out, sched: &Value, w: &World) {
                 "dfw" => {
                     let e = DialError::WrongPeerId { obtained: w.p(op, "q"), address: w.a(op, "a") };
                     store.on_swarm_event(&FromSwarm::DialFailure(DialFailure { peer_id: Some(w.p(op, "p")), error: &e, connection_id: cid }));
+                    Value::Null
+                }
+                // custom data: may create a record without addresses (and, at capacity, push another peer out)
+                "custom" => {
+                    store.insert_custom_data(&w.p(op, "p"), ());
+                    Value::Null
+                }
+                "take" => {
+                    let _ = store.take_custom_data(&w.p(op, "p"));
                     Value::Null
                 }
                 "dfo" => {
@@ -158,6 +168,7 @@ fn run(out: &mut Out, sched: &Value, w: &World) {
         ev["evs"] = json!(evs);
         ev["snap"] = json!(snap);
         ev["consistent"] = json!(consistent);
+        ev["nrec"] = json!(store.record_iter().count());
         out.ev(ev);
     }
 }
@@ -297,7 +308,16 @@ fn main() {
                 let np = rng.gen_range(2..=6);
                 let na = rng.gen_range(2..=7);
                 let len = rng.gen_range(5..=40);
-                let ops: Vec<Value> = (0..len).map(|_| gen_op(&mut rng, np, na)).collect();
+                let cust = rng.gen_bool(0.25);
+                let ops: Vec<Value> = (0..len)
+                    .map(|_| {
+                        if cust && rng.gen_bool(0.12) {
+                            json!({"op": if rng.gen_bool(0.7) { "custom" } else { "take" }, "p": rng.gen_range(0..np)})
+                        } else {
+                            gen_op(&mut rng, np, na)
+                        }
+                    })
+                    .collect();
                 run(&mut out, &json!({"pc": pc, "rc": rc, "rm": rm, "ops": ops}), &w);
             }
             println!("runs={} events={}", out.run, out.events);
